@@ -11,6 +11,7 @@ import (
 	"encoding/json"
 	"fmt"
 	"math/big"
+	"net"
 	"os"
 	"reflect"
 	"strings"
@@ -238,13 +239,14 @@ func mask(bits int) uint64 {
 	return (uint64(1) << uint(bits)) - 1
 }
 
-// DeepEq is structural equality: pointers by pointee, nil and empty slices equal,
+// DeepEq is structural equality over exported (and embedded) fields: pointers by pointee, nil and empty slices equal,
 // interfaces by dynamic type and value, bytes.Buffer by unread content.
 func DeepEq(a, b interface{}) bool {
 	return deepEq(reflect.ValueOf(a), reflect.ValueOf(b), 0)
 }
 
 var bufType = reflect.TypeOf(bytes.Buffer{})
+var ipType = reflect.TypeOf(net.IP{})
 
 func deepEq(a, b reflect.Value, depth int) bool {
 	if depth > 24 {
@@ -258,6 +260,17 @@ func deepEq(a, b reflect.Value, depth int) bool {
 	}
 	if a.Type() == bufType {
 		return bytes.Equal(bufBytes(a), bufBytes(b))
+	}
+	if a.Type() == ipType {
+		// net.IP: the 4-byte and the 16-byte (::ffff:a.b.c.d) forms are the same address
+		x, y := net.IP(a.Bytes()), net.IP(b.Bytes())
+		if x4 := x.To4(); x4 != nil {
+			x = x4
+		}
+		if y4 := y.To4(); y4 != nil {
+			y = y4
+		}
+		return bytes.Equal(x, y)
 	}
 	switch a.Kind() {
 	case reflect.Bool:
@@ -285,6 +298,9 @@ func deepEq(a, b reflect.Value, depth int) bool {
 		return deepEq(a.Elem(), b.Elem(), depth+1)
 	case reflect.Struct:
 		for i := 0; i < a.NumField(); i++ {
+			if sf := a.Type().Field(i); !sf.IsExported() && !sf.Anonymous {
+				continue // unexported state is observed through the re-encoding, not here
+			}
 			if !deepEq(a.Field(i), b.Field(i), depth+1) {
 				return false
 			}
